@@ -5,7 +5,7 @@
    finite history over any number of threads (a list of operations tagged with thread ids IS an
    interleaving). *)
 From Coq Require Import List Arith Bool.
-From TLV Require Import Model.Backend Proofs.BackendProofs Proofs.BackendNI Proofs.BackendTwo Proofs.BackendMicro Proofs.BackendNorm.
+From TLV Require Import Model.Backend Model.BackendDispatch Proofs.BackendProofs Proofs.BackendNI Proofs.BackendTwo Proofs.BackendMicro Proofs.BackendNorm Proofs.BackendDispatch.
 Import ListNotations.
 
 (* P1 view: after any history a thread's backend is its own most recent effective selection
@@ -169,6 +169,139 @@ Theorem C17_non_instance_rejected : forall (R : rules) (c : cfg) (i : inst),
   isinst R i = false -> resolve R c (SInst i) = None.
 Proof. exact non_instance_rejected. Qed.
 Print Assumptions C17_non_instance_rejected.
+
+(* P7 the dispatch clause, "dynamically dispatched functions always run on that backend", for every way a function
+   is reached (Model/BackendDispatch.v: the class attributes installed by use_dynamic_dispatch / use_static_dispatch,
+   the names tensorly/__init__.py binds at import, the module __getattr__, the class itself, references captured
+   by `from tensorly import fn` / `f = tl.fn` and handed to other threads).  dyn_ok = dispatch is dynamic: it holds
+   after import and is kept by every history that does not call use_static_dispatch *)
+Theorem C17_dispatch_dynamic_at_import : forall (nc : ncfg) (own0 : tid -> option inst), dyn_ok nc (dinit nc own0).
+Proof. exact dyn_init. Qed.
+Print Assumptions C17_dispatch_dynamic_at_import.
+
+Theorem C17_dispatch_dynamic_invariant : forall (R : rules) (c : cfg) (D : drules) (nc : ncfg) (h : list dop) (d : dst),
+  dyn_ok nc d -> no_static h -> dyn_ok nc (drun R c D nc d h).
+Proof. exact dyn_run. Qed.
+Print Assumptions C17_dispatch_dynamic_invariant.
+
+(* all routes to a function name agree: the call runs on the calling thread's current backend *)
+Theorem C17_dispatch_routes_agree : forall (R : rules) (c : cfg) (D : drules) (nc : ncfg) (d : dst) (t : tid) (r : route) (n : fname),
+  dyn_ok nc d -> is_fun nc n = true -> dout R c D nc d (DCall t r n) = DRan (cur (d_sel d) t).
+Proof. exact dispatch_routes_agree. Qed.
+Print Assumptions C17_dispatch_routes_agree.
+
+(* ... at ANY position of ANY history (any threads, any selections, captures, use_dynamic_dispatch) that is the view
+   of C17_view: the caller's own most recent selection, else the shared default *)
+Theorem C17_dispatch_follows_view : forall (R : rules) (c : cfg) (D : drules) (nc : ncfg) (d : dst) (h1 : list dop)
+    (t : tid) (r : route) (n : fname) (h2 : list dop),
+  dyn_ok nc d -> no_static h1 -> is_fun nc n = true ->
+  nth (length h1) (dtrace R c D nc d (h1 ++ DCall t r n :: h2)) DNone
+  = DRan (view (tls (d_sel d) t) (shared (d_sel d)) (events R c (d_sel d) (sel_ops h1)) t).
+Proof. exact dispatch_follows_view. Qed.
+Print Assumptions C17_dispatch_follows_view.
+
+(* a function reference captured BEFORE a switch (by any thread u, through any route, while dispatch was dynamic) and
+   called by any thread t after any further history h2 - selections by anybody, even use_static_dispatch - runs on
+   t's backend at the time of the CALL *)
+Theorem C17_dispatch_captured_follows_view : forall (R : rules) (c : cfg) (D : drules) (nc : ncfg) (d : dst) (h1 : list dop)
+    (u : tid) (r : route) (n : fname) (h2 : list dop) (t : tid) (h3 : list dop),
+  dyn_ok nc d -> no_static h1 -> is_fun nc n = true ->
+  let k := length (d_caps d) + length (cap_names h1) in
+  let h := h1 ++ DCapture u r n :: h2 in
+  nth (length h) (dtrace R c D nc d (h ++ DCallCap t k :: h3)) DNone
+  = DRan (view (tls (d_sel d) t) (shared (d_sel d)) (events R c (d_sel d) (sel_ops h)) t).
+Proof. exact captured_follows_view. Qed.
+Print Assumptions C17_dispatch_captured_follows_view.
+
+(* the other clauses seen through dispatched CALLS: isolation (whatever the other threads do thread-locally - sets,
+   contexts, captures, calls, use_dynamic_dispatch - a function called by t through any route runs on the same object
+   as before) and restore (after Enter ... Exit around any properly nested history, normal or exceptional exit, a
+   function called by t runs on the object it ran on before the context) *)
+Theorem C17_dispatch_isolation : forall (R : rules) (c : cfg) (D : drules) (nc : ncfg) (d : dst) (h : list dop)
+    (t : tid) (r : route) (n : fname),
+  keep_flag R = true -> dyn_ok nc d -> is_fun nc n = true -> ctx_local_except t (d_sel d) ->
+  Forall (fun o => dthr o <> t /\ dflag_local o = true) h ->
+  dout R c D nc (drun R c D nc d h) (DCall t r n) = dout R c D nc d (DCall t r n).
+Proof. exact dispatch_isolation. Qed.
+Print Assumptions C17_dispatch_isolation.
+
+Theorem C17_dispatch_restore : forall (R : rules) (c : cfg) (D : drules) (nc : ncfg) (d : dst) (t : tid) (x : sel) (l : bool)
+    (b : inst) (h : list dop) (e : bool) (r : route) (n : fname),
+  (forall k, isinst R (Named k) = true) -> wf R (d_sel d) -> dyn_ok nc d -> is_fun nc n = true ->
+  resolve R c x = Some b -> seg R c t 0 (sel_ops h) -> no_static h ->
+  dout R c D nc (drun R c D nc d (DSel (Enter t x l) :: h ++ [DSel (Exit_ t e)])) (DCall t r n) = dout R c D nc d (DCall t r n).
+Proof. exact dispatch_restore. Qed.
+Print Assumptions C17_dispatch_restore.
+
+(* dispatched ATTRIBUTES (evaluated at access time): through the manager module and through the module __getattr__
+   they are the attribute of the accessing thread's view; through the CLASS the descriptor raises AttributeError in
+   the current tree (descr_class D = false: `if isinstance is None` tests the builtin), and would follow the view
+   with the one-word repair (descr_class D = true) *)
+Theorem C17_dispatch_attribute_follows_view : forall (R : rules) (c : cfg) (D : drules) (nc : ncfg) (d : dst) (h1 : list dop)
+    (t : tid) (n : fname) (h2 : list dop),
+  dyn_ok nc d -> no_static h1 -> is_fun nc n = false -> is_attr nc n = true ->
+  let v := view (tls (d_sel d) t) (shared (d_sel d)) (events R c (d_sel d) (sel_ops h1)) t in
+  nth (length h1) (dtrace R c D nc d (h1 ++ DCall t RMgr n :: h2)) DNone = DVal v /\
+  (d_top d n = None -> nth (length h1) (dtrace R c D nc d (h1 ++ DCall t RTop n :: h2)) DNone = DVal v) /\
+  nth (length h1) (dtrace R c D nc d (h1 ++ DCall t RClass n :: h2)) DNone = if descr_class D then DVal v else DErr.
+Proof. exact attribute_follows_view. Qed.
+Print Assumptions C17_dispatch_attribute_follows_view.
+
+(* ... while an attribute that tensorly/__init__.py binds by name at import (int64, int32, float64, pi, e, inf, nan,
+   index) keeps the import-time backend's value for ever: tensorly.<attr> does NOT follow the backend (C17 speaks of
+   dispatched functions; recorded, see build/fix_candidates/C17_static_attributes.md) *)
+Theorem C17_dispatch_top_attribute_import_time : forall (R : rules) (c : cfg) (D : drules) (nc : ncfg)
+    (own0 : tid -> option inst) (h1 : list dop) (t : tid) (n : fname) (h2 : list dop),
+  top_bound nc n = true -> is_fun nc n = false -> is_attr nc n = true ->
+  nth (length h1) (dtrace R c D nc (dinit nc own0) (h1 ++ DCall t RTop n :: h2)) DNone = DVal (Named 0).
+Proof. exact top_attribute_import_time. Qed.
+Print Assumptions C17_dispatch_top_attribute_import_time.
+
+(* use_static_dispatch() (the documented opt-out of dynamic dispatch) called by thread u freezes the manager routes on
+   u's backend of that moment for every thread, until use_dynamic_dispatch(); the functions bound at import in the
+   top-level namespace are still closures and keep following the caller *)
+Theorem C17_static_dispatch_frozen : forall (R : rules) (c : cfg) (D : drules) (nc : ncfg) (d : dst) (u : tid)
+    (h : list dop) (t : tid) (n : fname),
+  dyn_ok nc d -> no_rebind h -> is_fun nc n = true ->
+  let d' := drun R c D nc (dnxt R c D nc d (DStatic u)) h in
+  dout R c D nc d' (DCall t RMgr n) = DRan (cur (d_sel d) u) /\
+  dout R c D nc d' (DCall t RClass n) = DRan (cur (d_sel d) u) /\
+  (top_bound nc n = true -> d_top d n = Some (VWrapper n) -> dout R c D nc d' (DCall t RTop n) = DRan (cur (d_sel d') t)).
+Proof. exact static_dispatch_frozen. Qed.
+Print Assumptions C17_static_dispatch_frozen.
+
+(* threads that start late: a thread that has not selected anything - in particular one started at this moment by
+   anybody, inside or outside of any context - sees the shared default = the most recent NON-local selection of
+   anybody (context entries and restores included); started inside a live context of t it sees the context's backend
+   iff the context was entered non-locally *)
+Theorem C17_fresh_thread_view : forall (R : rules) (c : cfg) (s : st) (h : list op) (u : tid),
+  tls s u = None -> Forall (fun o => thr o <> u) h ->
+  tls (run R c s h) u = None /\
+  cur (run R c s h) u = shared (run R c s h) /\
+  cur (run R c s h) u = match last_from is_global None (events R c s h) with Some b => b | None => shared s end.
+Proof. exact fresh_thread_view. Qed.
+Print Assumptions C17_fresh_thread_view.
+
+Theorem C17_thread_started_in_context : forall (R : rules) (c : cfg) (s : st) (t : tid) (x : sel) (l : bool) (b : inst) (u : tid),
+  resolve R c x = Some b -> tls s u = None -> u <> t ->
+  cur (nxt R c s (Enter t x l)) u = if l then shared s else b.
+Proof. exact thread_started_in_context. Qed.
+Print Assumptions C17_thread_started_in_context.
+
+(* contexts of the two managers nested in one another: a context of manager m around ANY mixed history whose
+   operations on m are properly nested for the thread restores m's backend and stack of the thread - whatever the
+   same thread and the others do with the OTHER manager in between (contexts of the other manager opened inside and
+   still open afterwards included) - and the other manager is exactly where its own operations put it *)
+Theorem C17_restore_mixed : forall (R : rules) (cb ct : cfg) (m : bool) (s : st2) (t : tid) (x : sel) (l : bool) (b : inst)
+    (h : list mop) (e : bool),
+  (forall n, isinst R (Named n) = true) -> wf R (on m s) -> resolve R (cfg2 cb ct m) x = Some b ->
+  seg R (cfg2 cb ct m) t 0 (proj m h) ->
+  let hist := (m, Enter t x l) :: h ++ [(m, Exit_ t e)] in
+  cur (on m (run2 R cb ct s hist)) t = cur (on m s) t /\
+  ctx (on m (run2 R cb ct s hist)) t = ctx (on m s) t /\
+  on (negb m) (run2 R cb ct s hist) = run R (cfg2 cb ct (negb m)) (on (negb m) s) (proj (negb m) h).
+Proof. exact restore_mixed. Qed.
+Print Assumptions C17_restore_mixed.
 
 (* P5 micro-steps ("in any interleaving" below the level of whole operations).  Every operation is
    a program of acts (Model/Backend.v, last part: what a thread switch can separate); a schedule is any
@@ -397,3 +530,48 @@ Example C17_micro_own_selection_programs_nonvacuous :
   p_out (b_priv (m_b (o_m (fst r))) 2) = [ODone; OReraised] /\
   p_out (b_priv (m_b (o_m (fst r))) 3) = [OName 6].
 Proof. exact own_selection_programs_nonvacuous. Qed.
+
+(* non-vacuity of the dispatch theorems: captures by thread 1 before thread 2's thread-local selection and thread 1's
+   NON-local context; every route, a thread without selection "started" inside the context, class-level attribute
+   access, use_static_dispatch, exit by exception, use_dynamic_dispatch - with the complete trace *)
+Example C17_dispatch_nonvacuous :
+  dyn_ok nc0 d0 /\ no_static (firstn 13 hist0) /\
+  dtrace fixed_rules cfg0 tree_drules nc0 d0 hist0
+  = [DNone; DNone; DSelObs ODone; DSelObs ODone;
+     DRan (Obj 0); DRan (Named 1); DRan (Named 1); DRan (Obj 0); DRan (Named 0); DVal (Obj 0); DVal (Named 1);
+     DVal (Named 0); DErr;
+     DNone; DSelObs OReraised;
+     DRan (Obj 0); DRan (Obj 0); DRan (Named 0); DRan (Named 0); DVal (Obj 0); DVal (Named 0);
+     DNone; DRan (Named 0)].
+Proof. exact dispatch_nonvacuous. Qed.
+
+(* non-vacuity of C17_restore_mixed: a tensorly.tenalg context opened inside a tensorly.backend context and still
+   open after it, global selections of another thread on both managers in between *)
+Example C17_restore_mixed_nonvacuous :
+  let h := [(true, Enter 1 (SName 1) false); (false, Set_ 2 (SName 2) false); (true, Set_ 2 (SName 2) true);
+            (false, Enter 1 (SInst (Obj 0)) true); (false, Exit_ 1 true)] in
+  seg fixed_rules cfg0 1 0 (proj false h) /\
+  trace2 fixed_rules cfg0 cfg0 (init2 (fun _ => None))
+    ((false, Enter 1 (SName 1) true) :: h ++ [(false, Exit_ 1 false); (false, Query 1); (true, Query 1); (true, Query 3)])
+  = [(false, ODone); (true, ODone); (false, ODone); (true, ODone); (false, ODone); (false, OReraised);
+     (false, ODone); (false, OName 0); (true, OName 1); (true, OName 1)].
+Proof. exact restore_mixed_nonvacuous. Qed.
+
+(* non-vacuity of C17_dispatch_isolation / C17_dispatch_restore: the hypotheses hold for the import state d0, a history
+   with a capture, a global selection of another thread, a nested thread-local context and an exit by exception *)
+Example C17_dispatch_restore_nonvacuous :
+  let h := [DCapture 2 RTop 0; DSel (Set_ 2 (SName 2) false); DSel (Enter 1 (SInst (Obj 0)) true); DCallCap 1 0;
+            DDynamic 2; DSel (Exit_ 1 true)] in
+  wf fixed_rules (d_sel d0) /\ ctx_local_except 1 (d_sel d0) /\ seg fixed_rules cfg0 1 0 (sel_ops h) /\ no_static h /\
+  Forall (fun o => dthr o <> 1 /\ dflag_local o = true) [DCapture 2 RTop 0; DSel (Enter 2 (SName 1) true); DCall 3 RMgr 1] /\
+  dout fixed_rules cfg0 tree_drules nc0 (drun fixed_rules cfg0 tree_drules nc0 d0 (DSel (Enter 1 (SName 1) false) :: h ++ [DSel (Exit_ 1 false)]))
+       (DCall 1 RTop 1) = DRan (Named 0).
+Proof.
+  cbv zeta. split; [|split; [|split; [|split; [|split]]]].
+  - apply C17_wf_at_start. intros t k. simpl. destruct (Nat.eqb t 0); discriminate.
+  - intros u old l _ [].
+  - simpl. apply seg_other; [discriminate|]. eapply seg_enter; [reflexivity|]. apply seg_exit. apply seg_nil.
+  - intros t H. simpl in H. repeat (destruct H as [H|H]; [discriminate|]). exact H.
+  - repeat constructor; discriminate.
+  - vm_compute. reflexivity.
+Qed.
